@@ -175,7 +175,9 @@ theorem C04_channels :
     ∧ receiversOn "root.Initiator.conn.Reader()" = ["root.Initiator.Serve$5"]
     ∧ receiversOn "AcceptorHandler.Outgoing()" = ["root.Acceptor.serve$4"]
     ∧ receiversOn "root.Initiator.handler.Outgoing()" = ["root.Initiator.Serve$3"]
-    ∧ Generated.consts.lookup "root.endOfMsgTag" = some "10=" := by decide
+    ∧ Generated.consts.lookup "root.endOfMsgTag" = some "10="
+    -- the reader takes whole delimiter-terminated segments with bufio.Reader.ReadBytes (the model's assumption)
+    ∧ Generated.blocks.contains ⟨"root.Conn.runReader", "netread", "r", [], false⟩ = true := by decide
 
 example : WFWire [[56, 61, 70], [51, 53, 61, 48], [49, 48, 61, 48, 48, 48]] :=
   ⟨by intro f hf; simp at hf; rcases hf with rfl | rfl | rfl <;> decide,
